@@ -1,4 +1,5 @@
 import ast
+import inspect
 import re
 from string import Template
 
@@ -302,6 +303,16 @@ def _update_rule_references(rules, extends):
     visit(rules, check_refs)
 
 
+def _is_expression_constructor(name):
+    # Only the expression classes and constructor functions (Opt, List, Some,
+    # Left, ...) are built in. The expressions package also exposes its
+    # submodules and helpers ("list", "str", "visit", ...); those names belong
+    # to the user.
+    value = getattr(ex, name, None)
+    is_constructor = isinstance(value, type) or inspect.isfunction(value)
+    return name[:1].isupper() and is_constructor
+
+
 def _create_parsing_expression(tree):
     if isinstance(tree, parser.StringLiteral):
         ignore_case = tree.value.endswith(('i', 'I'))
@@ -356,7 +367,7 @@ def _create_parsing_expression(tree):
 
     if isinstance(tree, parser.Postfix) and isinstance(tree.operator, parser.ArgList):
         left, args = tree.left, tree.operator.args
-        if isinstance(left, ex.Ref) and hasattr(ex, left.name):
+        if isinstance(left, ex.Ref) and _is_expression_constructor(left.name):
             def unwrap(x):
                 return eval(x.source_code) if isinstance(x, ex.PythonExpression) else x
             return getattr(ex, left.name)(
